@@ -3,7 +3,8 @@
     (registry/consul/service.go) and of the part of routecmd.go that decides WHICH tags of a
     catalog entry yield a route command (the text of a command is property C14's subject:
     here the commands [routecmd.build] produced for an entry are data carried by the entry,
-    and the model only checks that there is exactly one per route tag).
+    and the model only checks that there is at most one per route tag: since /repo d16ce3d
+    build drops a command that route.NewTable rejects on its own).
     Strings are byte strings; tags are assumed ASCII where [strings.TrimSpace] is involved. *)
 From Coq Require Import String List NArith Bool.
 From Fabio Require Import Lib.Outcome Lib.Bytes.
@@ -108,7 +109,7 @@ Definition checks_with_tag_prefix_unrepaired (prefix : str) (checks : list hchec
 (* ---- routecmd.build: which tags are route tags ---- *)
 (* the routetags list of routecmd.build; parseURLPrefixTag returns ok for every one of
    them (its only `false` returns are a missing prefix and a dead branch), so every route
-   tag yields exactly one command *)
+   tag yields exactly one candidate command (which build keeps iff it validates, d16ce3d) *)
 Definition route_tags (prefix : str) (tags : list str) : list str :=
   filter (fun t => has_prefix t prefix) (map trim_space tags).
 
@@ -142,10 +143,10 @@ Definition group (passing : list hcheck) : smap :=
 Definition catalog_service (catalog : list centry) (name : str) : list centry :=
   filter (fun e => beq (e_sname e) name) catalog.
 
-Definition err_cmd_count : N := 1.   (* the carried commands do not match the route tags *)
+Definition err_cmd_count : N := 1.   (* more commands carried than the entry has route tags *)
 
 Definition entry_cmds (prefix : str) (e : centry) : outcome (list str) :=
-  (check Nat.eqb (length (e_cmds e)) (length (route_tags prefix (e_tags e))) else err_cmd_count;
+  (check Nat.leb (length (e_cmds e)) (length (route_tags prefix (e_tags e))) else err_cmd_count;
    Ok (e_cmds e))%outcome.
 
 Fixpoint service_entries (prefix : str) (keys : list ikey) (svcs : list centry) : outcome (list str) :=
